@@ -294,6 +294,12 @@ type Script struct {
 	CloseAtOnce                         bool // the connection is closed before the greeting
 	Greet, Hello, Mail, Rcpt, Data, Dot *Reply
 	DotStatuses                         []*Reply // LMTP: one status per accepted recipient after the data (nil = 250)
+	// AUTH (round 9): answered 235 unless AuthReply is set or AuthMode says otherwise: "drop" the
+	// connection is closed, "junk" a line that is no reply, "chal" a challenge no mechanism with an
+	// initial response expects.  OnAuth is told the AUTH line the client sent.
+	AuthReply *Reply
+	AuthMode  string
+	OnAuth    func(line string)
 }
 
 // Serve plays a script on one connection (SMTP and LMTP: EHLO / LHLO / HELO are the same to it).
@@ -330,7 +336,26 @@ func Serve(conn net.Conn, sc Script) {
 		switch {
 		case strings.HasPrefix(cmd, "EHLO"), strings.HasPrefix(cmd, "HELO"), strings.HasPrefix(cmd, "LHLO"):
 			rsp = "250-mx.c16.invalid\r\n250-ENHANCEDSTATUSCODES\r\n250-SMTPUTF8\r\n250 8BITMIME\r\n"
+			if sc.OnAuth != nil || sc.AuthMode != "" || sc.AuthReply != nil {
+				rsp = "250-mx.c16.invalid\r\n250-ENHANCEDSTATUSCODES\r\n250-SMTPUTF8\r\n250-AUTH PLAIN LOGIN EXTERNAL\r\n250 8BITMIME\r\n"
+			}
 			pick(sc.Hello)
+		case strings.HasPrefix(cmd, "AUTH"):
+			if sc.OnAuth != nil {
+				sc.OnAuth(strings.TrimSpace(line))
+			}
+			rsp = "235 2.7.0 accepted\r\n"
+			switch sc.AuthMode {
+			case "drop":
+				return
+			case "junk":
+				rsp = "garbage\r\n"
+			case "chal":
+				rsp = "334 Z28gb24=\r\n"
+			}
+			pick(sc.AuthReply)
+		case cmd == "*\r\n":
+			rsp = "501 5.0.0 cancelled\r\n"
 		case strings.HasPrefix(cmd, "MAIL"):
 			rcpts = 0
 			pick(sc.Mail)
